@@ -7,6 +7,8 @@ CONSTANTS
     MaxRetry = 10
     MaxFail = 1
     AnyRemainder = TRUE
+    NonEmptyRem = FALSE
+    OutcomeSet = {"ok", "fail", "retry", "panic", "panicFut"}
     AllowKill = FALSE
     MaxIdleDelay = 3
     Emit = TRUE
